@@ -390,6 +390,7 @@ def c07(ctx):
     if thorough:
         tlc_must_hold(ctx, "Relay", "Relay_MCbig.cfg", timeout=1500)
     tlc_must_fail(ctx, "Relay", "Relay_Attack_NoIsolation.cfg")
+    tlc_must_fail(ctx, "Relay", "Relay_Attack_CleanCut.cfg")      # an upload that breaks off ends the client's response cleanly (before 35f74b2)
     build_relay_bins(ctx, race=True)     # the fault scenarios run the agent's race-detector build
     go_build_harness(ctx)
     events, _ = drive(ctx, "relay", mode="faults", timeout=2400)
@@ -688,6 +689,7 @@ def c03(ctx):
                        "interim responses must not disturb the final response; whether they are forwarded is not judged", "h2c backend: framing classes collapse to with/without Content-Length"]
     thorough = ctx.tier == "thorough"
     http_model(ctx)
+    tlc_must_fail(ctx, "Relay", "Relay_Attack_CleanCut.cfg")   # a response whose upload broke off must not look complete (Relay.UploadBreaks)
     must = [{"declared": 2, "framing": "chunked", "body": "single-small", "status": 200, "method": "GET", "interim": "none"},
             {"declared": 3, "framing": "chunked", "body": "multi", "status": 200, "method": "GET", "interim": "none"},
             {"interim": "103", "status": 201, "method": "GET", "framing": "length", "body": "single-small"},
